@@ -3,6 +3,13 @@
 import json, sys
 
 CLAIMED = {
+ "C01": dict(
+   category="model_checking",
+   text="(a) One real reconcile pass (real ObjectSet controller with native owners; real multi-cluster ObjectSetPhase controller with annotation owners) for every row of the adoption decision table: 12 owner states of the pre-existing object x 4 revision annotations x 3 package labels x 4 collisionProtection values x 4 previous lists (incl. deleted previous, delegated phase of a previous revision matched by name+UID) x 3 owner revisions x forced adoption on/off = 27 648 passes against the kmodel API model; each pass is judged against a reference function transcribed from the statement: not permitted => no non-dry-run request on the object's key, stored object byte-identical, refusal persisted as Available=False/CollisionDetected unless the object belongs to a newer revision; permitted => exactly one controller (the owner), revision annotation and spec updated. (b) Explicit-state BFS to closure over histories in which a third party creates, re-owns, relabels, re-annotates or deletes the object between reconciles (budget 4 quick / 6 thorough events, 6 systems = 3 collisionProtection values x previous declared or not); the same oracle is evaluated on the start state of every reconcile transition.",
+   design_ref="DESIGN.md §7 C01, Appendix A.1",
+   note="Trusted: kmodel API semantics (DESIGN.md §3); fresh caches; the in-pass window between PKO's read and its apply is outside C01's quantifier and not explored here; non-numeric revision annotations undecided.",
+   technique="exhaustive decision-table enumeration through the real reconcilers + explicit-state BFS with state hashing over third-party/reconcile histories, reference-model oracle on every transition",
+   engine="world"),
  "C12": dict(
    category="model_checking",
    text="(a) Every sequence of 5 (quick) / 6 (thorough) operations from Watch/Free/Get/List x 2 owners x 2 kinds is executed on the real dynamiccache.Cache (real cacheSource with two registered controller handlers, scripted informer map) with every informer start answering ok / error-before-start / error-after-start (<= 2 failures per sequence); after every operation a reference model (kind -> owner set) decides owners, running informers, CacheNotStartedError without implicit informer start, idempotent Watch, Free stopping exactly the orphaned informers, and literal event delivery (an Add event fired on the informer must reach both controller handlers). (b) Every interleaving with <= 3 (quick) / 6 (thorough) preemptions of 3 concurrent callers (RWMutex operations routed through the controlled scheduler, a scheduling point inside the informer start) must produce a linearizable history and a final state with informers == watched kinds. A free-running -race pass covers unsynchronised accesses.",
@@ -53,6 +60,7 @@ m = {
  },
  "engines": [
    {"name": "explore", "path": "harness/explore", "serves_properties": sorted(CLAIMED), "kind_free_text": "choice-point DFS with deviation budget, sharding, replay"},
+   {"name": "world", "path": "harness/world + harness/kmodel", "serves_properties": [i for i in sorted(CLAIMED) if CLAIMED[i]["engine"]=="world"], "kind_free_text": "real PKO controllers closed over a deterministic API-server model (kmodel) and the real dynamic cache; explicit-state BFS with canonical state hashing; fault plans at API-call gates"},
    {"name": "vsched", "path": "harness/vsched", "serves_properties": [i for i in sorted(CLAIMED) if CLAIMED[i]["engine"]=="vsched"], "kind_free_text": "cooperative controlled scheduler + sync/chan shims; overlay instrumenter cmd/vinstr"},
  ],
  "checks": checks,
